@@ -220,7 +220,17 @@ var toolFileStems = []string{"base_cloc", "top_cloc", "sort_cloc", "debug_cloc",
 
 // longName draws a name of 90-180 letters and digits (no blank: see addLines).
 func longName(t *rapid.T, label string) string {
-	n := rapid.IntRange(90, 180).Draw(t, "len"+label)
+	min, max := 90, 180
+	if label == "Dir" {
+		// a directory name may be as long as the file system lets the result file `<name>.json` be (255 bytes)
+		switch rapid.IntRange(0, 2).Draw(t, "lenClass"+label) {
+		case 1:
+			min, max = 181, 250
+		case 2:
+			min, max = 246, 250
+		}
+	}
+	n := rapid.IntRange(min, max).Draw(t, "len"+label)
 	unit := rapid.SampledFrom([]string{"Long", "abcdefghij", "x9_"}).Draw(t, "unit"+label)
 	return strings.Repeat(unit, n/len(unit)+1)[:n]
 }
@@ -547,6 +557,9 @@ func genShape(t *rapid.T, nCounted int, ignored []string, nEmpty, nRoot int, pre
 			front = append(front, x)
 		}
 		names = append(front, names...)
+	}
+	if rapid.IntRange(0, 7).Draw(t, "longDirName") == 7 {
+		names = append([]string{longName(t, "Dir")}, names...)
 	}
 	// a very wide tree needs more names than the pools have
 	for i := 0; len(names) < nCounted+nEmpty; i++ {
